@@ -7,6 +7,7 @@ import SlipVerif.Theorems.C05Impl
 import Mathlib.Tactic.Linarith
 import Mathlib.Tactic.Ring
 import Mathlib.Data.Nat.Sqrt
+import SlipVerif.Theorems.C05Bits
 /-
   C05 — obligations over the REGENERATED translation of slip's fixnum code (Gen/NumImpl.lean, written
   by extract/numimpl.go from pkg/cl/*.go on every run). Go's int64 semantics are explicit in the
@@ -452,6 +453,123 @@ theorem gen_isqrt_spec (a : Int) (ha : inRange a) :
     unfold NumImpl.isqrtFix isqrt
     simp [h]
 
+/-! ## integer-length: the counted loop over the shifts -/
+
+theorem intLen_loop (fuel : Nat) (n i : Nat) (hn : n < 2 ^ 63) (hi : i ≤ 63) (hf : 64 - i ≤ fuel)
+    (hinv : i = 0 ∨ 2 ^ (i - 1) ≤ n) :
+    NumImpl.integerLengthFix_loop1 fuel (n : Int) (i : Int) = ((bitLen n : Nat) : Int) := by
+  induction fuel generalizing i with
+  | zero => omega
+  | succ f ih =>
+    unfold NumImpl.integerLengthFix_loop1
+    have hi64 : (i : Int) < 64 := by omega
+    simp only [hi64, decide_true, if_true]
+    have hshr : shrFix (n : Int) (i : Int) = ((n / 2 ^ i : Nat) : Int) := by
+      unfold shrFix
+      rw [Int.toNat_natCast, shr_eq_div]
+      push_cast; rfl
+    rw [hshr]
+    by_cases hz : n / 2 ^ i = 0
+    · have hlt : n < 2 ^ i := by
+        rcases Nat.div_eq_zero_iff.mp hz with h | h
+        · have : 0 < 2 ^ i := Nat.two_pow_pos i
+          omega
+        · exact h
+      have hb : bitLen n = i := bitLen_unique n i hlt hinv
+      simp [hz, hb]
+    · have hge : 2 ^ i ≤ n := by
+        by_contra hc
+        exact hz (Nat.div_eq_of_lt (not_le.mp hc))
+      have hne : ¬ (((n / 2 ^ i : Nat) : Int) == 0) = true := by
+        intro hc
+        exact hz (Int.natCast_eq_zero.mp (beq_iff_eq.mp hc))
+      rw [if_neg hne]
+      have hi62 : i ≤ 62 := by
+        by_contra hc
+        have : i = 63 := by omega
+        subst this; omega
+      have hadd : addFix (i : Int) 1 = ((i + 1 : Nat) : Int) := by
+        unfold addFix wrap64; push_cast; omega
+      simp only [hadd]
+      exact ih (i + 1) (by omega) (by omega) (Or.inr (by simpa using hge))
+
+/-- the fixnum branch of `integer-length` (a counted loop over the shifts) is the spec's length -/
+theorem gen_integerLength_exact (a : Int) (ha : inRange a) :
+    NumImpl.integerLengthFix a = .fix (integerLength a) := by
+  unfold NumImpl.integerLengthFix integerLength
+  unfold inRange at ha
+  by_cases h : a < 0
+  · simp only [h, decide_true, if_true]
+    have e : negFix (addFix a 1) = (((-a - 1).toNat : Nat) : Int) := by
+      unfold negFix addFix wrap64; omega
+    rw [e]
+    have := intLen_loop (64 + 1) (-a - 1).toNat 0 (by omega) (by omega) (by omega) (Or.inl rfl)
+    simp only [Nat.cast_zero] at this
+    rw [this]
+  · simp only [h, decide_false, if_false, Bool.false_eq_true]
+    have e : a = ((a.toNat : Nat) : Int) := by omega
+    have := intLen_loop (64 + 1) a.toNat 0 (by omega) (by omega) (by omega) (Or.inl rfl)
+    simp only [Nat.cast_zero] at this
+    rw [← e] at this
+    rw [this]
+
+
+/-! ## logbitp -/
+
+/-- the fixnum branch of `logbitp`: bit `i` of the two's-complement expansion, also beyond the word -/
+theorem gen_logbitp_spec (n i : Int) (hn : inRange n) (hi : 0 ≤ i) :
+    NumImpl.logbitpFix n i = testBit n i.toNat := by
+  rw [testBit_spec]
+  unfold NumImpl.logbitpFix
+  generalize hk : i.toNat = k
+  have hik : i = (k : Int) := by omega
+  have hp := pow2_pos k
+  unfold inRange at hn
+  by_cases h64 : i < 64
+  · simp only [h64, decide_true, if_true]
+    have hk64 : k < 64 := by omega
+    -- 2^64 = 2^k * (2 * 2^(63-k))
+    have hM : (18446744073709551616 : Int) = (2 : Int) ^ k * (2 * (2 : Int) ^ (63 - k)) := by
+      have : (2 : Int) ^ k * (2 * (2 : Int) ^ (63 - k)) = (2 : Int) ^ (k + (1 + (63 - k))) := by
+        rw [pow_add, pow_add]; ring
+      rw [this]
+      have : k + (1 + (63 - k)) = 64 := by omega
+      rw [this]; norm_num
+    have hdecomp : n / (2 : Int) ^ k = (n % 18446744073709551616) / (2 : Int) ^ k + 2 * ((2 : Int) ^ (63 - k) * (n / 18446744073709551616)) := by
+      have e2 : n = n % 18446744073709551616 + (2 : Int) ^ k * (2 * ((2 : Int) ^ (63 - k) * (n / 18446744073709551616))) := by
+        have : (18446744073709551616 : Int) * (n / 18446744073709551616) = (2 : Int) ^ k * (2 * ((2 : Int) ^ (63 - k) * (n / 18446744073709551616))) := by
+          rw [hM]; ring
+        omega
+      conv_lhs => rw [e2]
+      rw [Int.add_mul_ediv_left _ _ (ne_of_gt hp)]
+    have hpar : (n / (2 : Int) ^ k) % 2 = ((n % 18446744073709551616) / (2 : Int) ^ k) % 2 := by
+      rw [hdecomp]; omega
+    rw [hpar]
+    have hx0 : 0 ≤ (n % 18446744073709551616) / (2 : Int) ^ k := Int.ediv_nonneg (by omega) (le_of_lt hp)
+    unfold andU shrU toU64
+    rw [hik, Int.toNat_natCast]
+    generalize (n % 18446744073709551616) / (2 : Int) ^ k = x at *
+    have hx : x = ((x.toNat : Nat) : Int) := by omega
+    have h1 : (1 : Int).toNat = 1 := rfl
+    rw [h1, Nat.and_one_is_mod]
+    by_cases hodd : x % 2 = 1
+    · have : x.toNat % 2 = 1 := by omega
+      simp [hodd, this]
+    · have : x.toNat % 2 = 0 := by omega
+      simp [hodd, this]
+  · simp only [h64, decide_false, if_false, Bool.false_eq_true]
+    have hk64 : 64 ≤ k := by omega
+    have hm := pow2_mono 64 k hk64
+    norm_num at hm
+    by_cases hneg : n < 0
+    · have : n / (2 : Int) ^ k = -1 := by
+        apply ediv_unique _ _ _ hp <;> omega
+      simp [hneg, this]
+    · have : n / (2 : Int) ^ k = 0 := by
+        apply ediv_unique _ _ _ hp <;> omega
+      simp [hneg, this]
+
+
 /-! ## comparisons: dispatch of compareReals, the chain loops of < <= > >= =, the folds of max and min -/
 
 theorem cmpRat_spec (a b : Rat) :
@@ -691,6 +809,8 @@ example : goChain NumImpl.ltBody 1 [3, 2] = false ∧ goChain NumImpl.ltBody 1 [
 example : NumImpl.ashFix 1 62 = .fix 4611686018427387904 ∧ NumImpl.ashFix 1 63 = .big 9223372036854775808 ∧
     NumImpl.ashFix (-1) (-70) = .fix (-1) ∧ NumImpl.ashFix (-5) (-1) = .fix (-3) := by decide
 example : NumImpl.absFix (-9223372036854775808) = .big 9223372036854775808 ∧ NumImpl.absFix (-3) = .fix 3 := by decide
+example : NumImpl.integerLengthFix 255 = .fix 8 ∧ NumImpl.integerLengthFix (-256) = .fix 8 ∧ NumImpl.integerLengthFix 0 = .fix 0 := by decide
+example : NumImpl.logbitpFix (-8) 2 = false ∧ NumImpl.logbitpFix (-8) 3 = true ∧ NumImpl.logbitpFix (-8) 70 = true ∧ NumImpl.logbitpFix 8 70 = false := by decide
 example : NumImpl.lognotFix 5 = .fix (-6) ∧ NumImpl.signumFix (-7) = -1 ∧ NumImpl.evenpFix (-4) = true := by decide
 
 end GenC05
